@@ -127,7 +127,7 @@ def projection_case(ctx, idx, rng):
             ctx.ok('right-blocks.shape', False, f'block {i} shape {BR[i].shape} != {refsR[i].shape}', detail)
             return
         _close(ctx, 'right-blocks.dense', BR[i], refsR[i], np.linalg.norm(refsR[i]), detail)
-    npsi = [np.linalg.norm(a) for a in psi.A]
+    scale_env = nH * float(np.prod([max(np.linalg.norm(a), 1e-300) for a in psi.A])) ** 2
     A = psi.A
     c = lambda *s: gen.entries(rng, s, 'complex')
     for i in range(L):
@@ -143,7 +143,7 @@ def projection_case(ctx, idx, rng):
             for k in range(n):
                 e = np.zeros(n, dtype=complex); e[k] = 1
                 M[:, k] = ptn.apply_local_hamiltonian(BL[i], BR[i], H.A[i], e.reshape(X.shape)).reshape(-1)
-            ctx.close('heff.hermitian[one-site]', np.linalg.norm(M - M.conj().T), 1e-10 * max(np.linalg.norm(M), 1e-300), 'effective Hamiltonian not Hermitian for a Hermitian MPO', detail)
+            ctx.close('heff.hermitian[one-site]', np.linalg.norm(M - M.conj().T), 1e-10 * np.linalg.norm(M) + 1e-12 * scale_env / max(np.linalg.norm(psi.A[i]), 1e-300) ** 2, 'effective Hamiltonian not Hermitian for a Hermitian MPO', detail)
         if i < L - 1:
             # two-site
             sh = (d * d, A[i].shape[1], A[i + 1].shape[2])
@@ -169,7 +169,7 @@ def projection_case(ctx, idx, rng):
                 for k in range(n):
                     e = np.zeros(n, dtype=complex); e[k] = 1
                     M[:, k] = ptn.apply_local_bond_contraction(BL[i + 1], BR[i], e.reshape(Dm, Dm)).reshape(-1)
-                ctx.close('heff.hermitian[zero-site]', np.linalg.norm(M - M.conj().T), 1e-10 * max(np.linalg.norm(M), 1e-300), 'bond operator not Hermitian for a Hermitian MPO', detail)
+                ctx.close('heff.hermitian[zero-site]', np.linalg.norm(M - M.conj().T), 1e-10 * np.linalg.norm(M) + 1e-12 * scale_env, 'bond operator not Hermitian for a Hermitian MPO', detail)
 
 
 SPEC = {
